@@ -1,4 +1,5 @@
 import St4sd.Model.ArgSubst
+import St4sd.Lemmas.C10Spell
 /-!
 # C10 — Command-line reference substitution is exact
 
@@ -661,5 +662,302 @@ example : functionalB (entries (exDecls.map Decl.toRef)) = true := by decide
 
 /-- a `:loopoutput` over two loop instances (CRLF file read in text mode) -/
 example : (Source.files [some " a\r\n".toList, some "b \n\n".toList]).value? = some " a b ".toList := by decide
+
+/-! ### the spellings of a declared reference are its text
+
+`resolveArguments` looks for `absoluteReference` / `relativeReference` of every declared reference in the
+argument string.  The theorems below say that these are exactly the text under which the reference was
+declared (with the consumer's stage put in front / left out), for EVERY producer name, file part and method —
+in particular for the file part that is present but empty (`Producer/:ref`): the spellings keep the `/`, so the
+token written in the command line is found, and the value keeps it too (`<dir>/`). -/
+
+open St4sd.C10.Spell in
+/-- joining what `split('/', 1)` separated gives the text back — also when nothing follows the `/` -/
+theorem withFile_splitPath (path : S) (h0 : path.head? ≠ some '/')
+    (h1 : ∀ a b, splitFirst '/' path = some (a, b) → b.head? ≠ some '/') :
+    withFile (splitPath path).1 (splitPath path).2 = path := by
+  unfold splitPath
+  cases hs : splitFirst '/' path with
+  | none => rfl
+  | some p =>
+    obtain ⟨a, b⟩ := p
+    obtain ⟨he, hn⟩ := splitFirst_some '/' path a b hs
+    have ha : a ≠ [] := by
+      intro e
+      rw [e] at he
+      rw [he] at h0
+      simp at h0
+    simp only [withFile]
+    rw [pjoin_rel a b ha (getLast?_ne_of_not_mem hn) (h1 a b hs)]
+    exact he.symm
+
+open St4sd.C10.Spell in
+/-- a base and a relative file part: the separator is there whenever the file part is — `none` and the empty
+file part give different texts, and so do any two different file parts -/
+theorem withFile_injective (base : S) (f1 f2 : Option S) (hb : base ≠ []) (hl : base.getLast? ≠ some '/')
+    (h1 : ∀ f, f1 = some f → f.head? ≠ some '/') (h2 : ∀ f, f2 = some f → f.head? ≠ some '/')
+    (h : withFile base f1 = withFile base f2) : f1 = f2 := by
+  cases f1 with
+  | none =>
+    cases f2 with
+    | none => rfl
+    | some g =>
+      simp only [withFile] at h
+      rw [pjoin_rel base g hb hl (h2 g rfl)] at h
+      have := congrArg List.length h
+      simp at this
+  | some f =>
+    cases f2 with
+    | none =>
+      simp only [withFile] at h
+      rw [pjoin_rel base f hb hl (h1 f rfl)] at h
+      have := congrArg List.length h
+      simp at this
+    | some g =>
+      simp only [withFile] at h
+      rw [pjoin_rel base f hb hl (h1 f rfl), pjoin_rel base g hb hl (h2 g rfl)] at h
+      have := List.append_cancel_left h
+      simp only [List.cons.injEq, true_and] at this
+      rw [this]
+
+/-- **`Producer:ref` and `Producer/:ref` are different references**: no file part and the empty file part
+have different spellings … -/
+theorem spelling_none_ne_empty (p : Parts) (hn : p.name ≠ []) (hl : p.name.getLast? ≠ some '/') :
+    ({ p with file := none } : Parts).relSpelling ≠ ({ p with file := some [] } : Parts).relSpelling := by
+  intro h
+  simp only [Parts.relSpelling] at h
+  have h' := List.append_cancel_right h
+  have := withFile_injective p.name none (some []) hn hl (by simp) (by intro f hf; cases hf; simp) h'
+  cases this
+
+open St4sd.C10.Spell in
+/-- … and different values: the empty file part leaves the separator at the end of the path -/
+theorem refPath_empty_file (loc : S) (hn : loc ≠ []) (hl : loc.getLast? ≠ some '/') :
+    refPath loc (some []) = loc ++ ['/'] ∧ refPath loc none = loc := by
+  constructor
+  · simp only [refPath, withFile]
+    exact pjoin_rel loc [] hn hl (by simp)
+  · rfl
+
+/-- side conditions on the pieces of a reference text: the producer is a non-empty name without `/ . :`,
+the file part (when there is one, possibly empty) is relative and has no `:`, the method has no `:` -/
+structure TextOk (producer : S) (file : Option S) (method : S) : Prop where
+  name_ne : producer ≠ []
+  name_slash : '/' ∉ producer
+  name_dot : '.' ∉ producer
+  name_colon : ':' ∉ producer
+  file_rel : ∀ f, file = some f → f.head? ≠ some '/'
+  file_colon : ∀ f, file = some f → ':' ∉ f
+  method_colon : ':' ∉ method
+
+private theorem contains_false_of_not_mem {c : Char} {s : S} (h : c ∉ s) : s.contains c = false := by
+  simpa using h
+
+open St4sd.C10.Spell in
+private theorem splitColon (producer : S) (file : Option S) (method : S) (ok : TextOk producer file method)
+    (pre : S) (hpre : ':' ∉ pre) :
+    splitFirst ':' (pre ++ refText producer file method) =
+      some (pre ++ pathText producer file, method) := by
+  unfold refText
+  rw [← List.append_assoc]
+  apply splitFirst_append
+  cases file with
+  | none => simp [pathText, hpre, ok.name_colon]
+  | some f => simp [pathText, hpre, ok.name_colon, ok.file_colon f rfl]
+
+open St4sd.C10.Spell in
+private theorem splitPath_text (producer : S) (file : Option S) (method : S) (ok : TextOk producer file method)
+    (pre : S) (hpre : '/' ∉ pre) :
+    splitPath (pre ++ pathText producer file) = (pre ++ producer, file) := by
+  unfold splitPath
+  cases file with
+  | none =>
+    have : '/' ∉ pre ++ producer := by simp [hpre, ok.name_slash]
+    simp only [pathText]
+    rw [(splitFirst_none_iff '/' _).mpr this]
+  | some f =>
+    simp only [pathText]
+    rw [← List.append_assoc, splitFirst_append '/' (pre ++ producer) f (by simp [hpre, ok.name_slash])]
+
+open St4sd.C10.Spell in
+private theorem stageText_chars (n : Nat) : ∀ c, c ∈ stageText n → c ≠ ':' ∧ c ≠ '/' := by
+  have hdig : ∀ c ∈ natToDigits n, isDigit c = true := by
+    have := natToDigits_all n
+    simpa [List.all_eq_true] using this
+  intro c hc
+  unfold stageText at hc
+  rcases List.mem_append.mp hc with h | h
+  · rcases List.mem_append.mp h with h | h
+    · have h' : c ∈ ['s', 't', 'a', 'g', 'e'] := h
+      simp only [List.mem_cons, List.not_mem_nil, or_false] at h'
+      rcases h' with rfl | rfl | rfl | rfl | rfl <;> decide
+    · have := hdig _ h
+      constructor <;> (intro e; rw [e] at this; revert this; decide)
+  · simp at h; rw [h]; decide
+
+private theorem takeWhile_all (p : Char → Bool) : ∀ l : S, (∀ c ∈ l, p c = true) → l.takeWhile p = l
+  | [], _ => rfl
+  | c :: l, h => by
+    have hc : p c = true := h c (by simp)
+    simp only [List.takeWhile_cons, hc, if_true]
+    rw [takeWhile_all p l (fun d hd => h d (by simp [hd]))]
+
+open St4sd.C10.Spell in
+/-- **A reference declared without a stage**: the code reads `producer[/file]:method` as a reference to
+`producer` in the consumer's stage with exactly that file part (`none`, empty, or any relative path), its
+relative spelling is the declared text, its absolute spelling is the text with `stage<k>.` in front, and the
+relative spelling is active. -/
+theorem relative_text_spellings (k : Nat) (producer : S) (file : Option S) (method : S)
+    (ok : TextOk producer file method) :
+    ∃ p, parseRef k false (refText producer file method) = some p ∧
+      p = { stage := some k, name := producer, file := file, method := method } ∧
+      p.relSpelling = refText producer file method ∧
+      p.absSpelling = stageText k ++ refText producer file method ∧
+      p.relActive k = true := by
+  have h1 := splitColon producer file method ok [] (by simp)
+  have h2 := splitPath_text producer file method ok [] (by simp)
+  simp only [List.nil_append] at h1 h2
+  have h3 : parseProducer k producer = (k, producer) := by
+    unfold parseProducer
+    rw [(splitFirst_none_iff '.' _).mpr ok.name_dot]
+  refine ⟨_, ?_, rfl, ?_, ?_, ?_⟩
+  · unfold parseRef
+    rw [h1]
+    simp only [contains_false_of_not_mem ok.method_colon, Bool.false_eq_true, if_false, h2, h3]
+  · unfold Parts.relSpelling refText
+    cases file with
+    | none => rfl
+    | some f =>
+      simp only [withFile]
+      rw [pjoin_rel producer f ok.name_ne (getLast?_ne_of_not_mem ok.name_slash) (ok.file_rel f rfl)]
+      simp [pathText]
+  · unfold Parts.absSpelling Parts.identifier refText
+    have hne : stageText k ++ producer ≠ [] := by simp [stageText]
+    have hl : (stageText k ++ producer).getLast? ≠ some '/' := by
+      apply getLast?_ne_of_not_mem
+      intro hm
+      rcases List.mem_append.mp hm with h | h
+      · exact (stageText_chars k _ h).2 rfl
+      · exact ok.name_slash h
+    cases file with
+    | none => simp [withFile, pathText]
+    | some f =>
+      simp only [withFile]
+      rw [pjoin_rel _ f hne hl (ok.file_rel f rfl)]
+      simp [pathText]
+  · simp [Parts.relActive]
+
+open St4sd.C10.Spell in
+private theorem parseProducer_staged (k n : Nat) (producer : S) :
+    parseProducer k (stageText n ++ producer) = (n, producer) := by
+  unfold parseProducer stageText
+  have hdig : ∀ c ∈ natToDigits n, isDigit c = true := by
+    have := natToDigits_all n
+    simpa [List.all_eq_true] using this
+  have hnd : '.' ∉ "stage".toList ++ natToDigits n := by
+    intro hm
+    rcases List.mem_append.mp hm with h | h
+    · revert h; decide
+    · have := hdig _ h
+      revert this; decide
+  have : "stage".toList ++ natToDigits n ++ ['.'] ++ producer = ("stage".toList ++ natToDigits n) ++ '.' :: producer := by
+    simp
+  rw [this, splitFirst_append '.' _ producer hnd]
+  have hp : stagePrefix? ("stage".toList ++ natToDigits n) = some n := by
+    unfold stagePrefix?
+    have h1 : "stage".toList.isPrefixOf ("stage".toList ++ natToDigits n) = true := by
+      rw [List.isPrefixOf_iff_prefix]; exact List.prefix_append _ _
+    have h2 : ("stage".toList ++ natToDigits n).drop 5 = natToDigits n := by
+      have : ("stage".toList).length = 5 := by decide
+      rw [← this, List.drop_left]
+    have h3 : (natToDigits n).takeWhile isDigit = natToDigits n := takeWhile_all _ _ hdig
+    rw [if_pos h1, h2, h3]
+    exact digitsToNat_natToDigits n
+  simp only [hp]
+
+open St4sd.C10.Spell in
+/-- **A reference declared with its stage**: `stage<n>.producer[/file]:method` is read as the producer of stage
+`n` with exactly that file part; its absolute spelling is the declared text, its relative spelling the text
+without the stage, active exactly when `n` is the consumer's stage. -/
+theorem staged_text_spellings (k n : Nat) (producer : S) (file : Option S) (method : S)
+    (ok : TextOk producer file method) :
+    ∃ p, parseRef k false (stageText n ++ refText producer file method) = some p ∧
+      p = { stage := some n, name := producer, file := file, method := method } ∧
+      p.absSpelling = stageText n ++ refText producer file method ∧
+      p.relSpelling = refText producer file method ∧
+      p.relActive k = (n == k) := by
+  have hst := stageText_chars n
+  have hc : ':' ∉ stageText n := fun h => (hst _ h).1 rfl
+  have hs : '/' ∉ stageText n := fun h => (hst _ h).2 rfl
+  have h1 := splitColon producer file method ok (stageText n) hc
+  have h2 := splitPath_text producer file method ok (stageText n) hs
+  have h3 := parseProducer_staged k n producer
+  obtain ⟨p0, hp0, hp0e, hrel, habs, _⟩ := relative_text_spellings n producer file method ok
+  refine ⟨_, ?_, rfl, ?_, ?_, ?_⟩
+  · unfold parseRef
+    rw [h1]
+    simp only [contains_false_of_not_mem ok.method_colon, Bool.false_eq_true, if_false, h2, h3]
+  · rw [hp0e] at habs; exact habs
+  · rw [hp0e] at hrel
+    simpa [Parts.relSpelling] using hrel
+  · simp [Parts.relActive]
+
+/-- **The declared text is a spelling of the declared reference** (so by `token_replaced_whole` a token written
+exactly as declared is replaced by the reference's value): for a reference declared as `producer[/file]:method`
+— whatever the file part, `none`, EMPTY or a path — the declaration the model (and the code) builds from the text
+has the text among its spellings, and the text with the stage in front as well. -/
+theorem declared_text_is_a_spelling (k : Nat) (producer : S) (file : Option S) (method : S) (src : Source)
+    (ok : TextOk producer file method) :
+    ∃ d, declOfText k false (refText producer file method) src = some d ∧
+      refText producer file method ∈ d.toRef.spellings ∧
+      stageText k ++ refText producer file method ∈ d.toRef.spellings := by
+  obtain ⟨p, hp, _, hrel, habs, hact⟩ := relative_text_spellings k producer file method ok
+  refine ⟨p.toDecl k src, by simp [declOfText, hp], ?_, ?_⟩ <;>
+    simp [Decl.toRef, Parts.toDecl, Ref.spellings, hact, hrel, habs]
+
+/-- the same for a reference declared with its stage: the declared text is the (always active) absolute spelling -/
+theorem declared_staged_text_is_a_spelling (k n : Nat) (producer : S) (file : Option S) (method : S) (src : Source)
+    (ok : TextOk producer file method) :
+    ∃ d, declOfText k false (stageText n ++ refText producer file method) src = some d ∧
+      stageText n ++ refText producer file method ∈ d.toRef.spellings := by
+  obtain ⟨p, hp, _, habs, _, _⟩ := staged_text_spellings k n producer file method ok
+  refine ⟨p.toDecl k src, by simp [declOfText, hp], ?_⟩
+  simp only [Decl.toRef, Parts.toDecl, Ref.spellings, habs]
+  split <;> simp
+
+/-- the hypotheses are satisfiable by the degenerate shapes: no file part, the empty one, a nested one with a
+trailing separator -/
+example : TextOk "Gen".toList (some []) "ref".toList :=
+  ⟨by decide, by decide, by decide, by decide, by intro f h; cases h; decide, by intro f h; cases h; decide, by decide⟩
+
+example : (declOfText 1 false "Gen/:ref".toList (.path "/i/stages/stage1/Gen/".toList)).map (·.toRef.spellings)
+    = some ["stage1.Gen/:ref".toList, "Gen/:ref".toList] := by decide
+
+example : (declOfText 1 false "stage0.Gen/t/:ref".toList (.path "/i/stages/stage0/Gen/t/".toList)).map (·.toRef.spellings)
+    = some ["stage0.Gen/t/:ref".toList] := by decide
+
+/-- `-a stage0.Gen/:ref Gen/:ref Gen:ref` with `Gen/` and `Gen` both declared: each token gets its own value -/
+example :
+    (resolveD ((declOfText 1 false "stage0.Gen/:ref".toList (.path (refPath "/i/s0/Gen".toList (some [])))).toList ++
+               (declOfText 1 false "Gen/:ref".toList (.path (refPath "/i/s1/Gen".toList (some [])))).toList ++
+               (declOfText 1 false "Gen:ref".toList (.path (refPath "/i/s1/Gen".toList none))).toList)
+      "-a stage0.Gen/:ref Gen/:ref Gen:ref".toList).out = "-a /i/s0/Gen/ /i/s1/Gen/ /i/s1/Gen".toList := by decide
+
+/-! ### no bound on the length of a value
+
+`outputValue`, `loopInstanceValue` and `Source.value?` are total functions of the whole contents: the theorems
+above (`outputValue_decomp`, `outputValue_exact`, `output_token_replaced_by_contents`) quantify over contents of
+every length, there is no limit after which a value may be cut. -/
+
+/-- the value is never shorter than the contents minus its final newlines: nothing is cut, at any length -/
+theorem outputValue_length (c : S) : ∃ n, (outputValue c).length + n = c.length ∧ c.drop (outputValue c).length = List.replicate n '\n' := by
+  obtain ⟨n, hn⟩ := outputValue_decomp c
+  refine ⟨n, ?_, ?_⟩
+  · have := congrArg List.length hn
+    simp at this
+    omega
+  · have h : c.drop (outputValue c).length = (outputValue c ++ List.replicate n '\n').drop (outputValue c).length := by
+      rw [← hn]
+    rw [h, List.drop_left]
 
 end St4sd.C10
